@@ -105,7 +105,10 @@ def run(ctx):
         state = [(i, {}) for i in base_idx]
         program = []
         replaced_any = False
+        earlier = [(t, list(state), False, [])]          # tables that stay alive while the program continues (parent objects)
         for _ in range(r.randint(1, maxsteps)):
+            if program and (earlier[-1][3] != program):
+                earlier.append((t, list(state), replaced_any, list(program)))
             kind = r.random()
             if kind < 0.6 or not state:
                 sel = gen_selection(r, len(state))
@@ -153,80 +156,88 @@ def run(ctx):
                     return
                 replaced_any = True
                 program.append(["replace", names])
-        # expected bytes
-        def norm(raw):
-            return raw if raw.endswith(eol) else raw + "\n"     # the reader terminates an unterminated last record with a plain newline
-        exp_records = []
-        for i, ov in state:
-            raw = norm(raws[i])
-            if ov:
-                body = raw[:-len(eol)] if raw.endswith(eol) else raw[:-1]
-                cols = body.split("\t")
-                ncols = len(FORMATS[fname].fields) if fname != "sam" else len(cols)
-                for c, tx in ov.items():
-                    cols[c] = tx
-                if fname == "vcf":
-                    cols = cols[:8]
-                raw = "\t".join(cols) + (eol if raw.endswith(eol) else "\n")
-            exp_records.append(raw)
-        header = fc["header"]
-        expected = header + "".join(exp_records)
-        out = ctx.path("out" + fmt.suffix)
-        wit = {"format": fname, "eol": "crlf" if eol != "\n" else "lf", "final_newline": case["final_newline"], "noncanon": case["noncanon"], "chunked": case["chunked"], "program": program,
-               "source": fc["data"].decode("latin1")[:1500], "seed": case["seed"]}
-        tag = "%s%s" % ("+crlf" if eol != "\n" else "", "+replace" if replaced_any else "")
-        nontriv = (fc["data"], case["chunked"], repr(program)) if state and len(program) >= 1 else None
-        try:
-            with bnp.open(out, "w", buffer_type=bt) as f:
-                f.write(t)
-            got = open(out, "rb").read().decode("latin1")
-        except Exception as e:
-            if not originates_in_library(e):
-                raise
-            et, site = exc_site(e)
-            ctx.judged("write:" + fname, nontriv)
-            ctx.violation("%s%s/write-raised:%s@%s" % (fname, tag, et, site), "writing the selected records raised %s: %s" % (et, str(e)[:120]), wit)
-            return
-        concatenated = any(step[0].startswith("concat") for step in program)
+        def judge_write(t, state, replaced_any, program, role):
+            # expected bytes
+            def norm(raw):
+                return raw if raw.endswith(eol) else raw + "\n"     # the reader terminates an unterminated last record with a plain newline
+            exp_records = []
+            for i, ov in state:
+                raw = norm(raws[i])
+                if ov:
+                    body = raw[:-len(eol)] if raw.endswith(eol) else raw[:-1]
+                    cols = body.split("\t")
+                    ncols = len(FORMATS[fname].fields) if fname != "sam" else len(cols)
+                    for c, tx in ov.items():
+                        cols[c] = tx
+                    if fname == "vcf":
+                        cols = cols[:8]
+                    raw = "\t".join(cols) + (eol if raw.endswith(eol) else "\n")
+                exp_records.append(raw)
+            header = fc["header"]
+            expected = header + "".join(exp_records)
+            out = ctx.path("out" + fmt.suffix)
+            wit = {"format": fname, "eol": "crlf" if eol != "\n" else "lf", "final_newline": case["final_newline"], "noncanon": case["noncanon"], "chunked": case["chunked"], "program": program,
+                   "source": fc["data"].decode("latin1")[:1500], "seed": case["seed"]}
+            tag = "%s%s" % ("+crlf" if eol != "\n" else "", "+replace" if replaced_any else "")
+            nontriv = (fc["data"], case["chunked"], repr(program)) if state and len(program) >= 1 else None
+            try:
+                with bnp.open(out, "w", buffer_type=bt) as f:
+                    f.write(t)
+                got = open(out, "rb").read().decode("latin1")
+            except Exception as e:
+                if not originates_in_library(e):
+                    raise
+                et, site = exc_site(e)
+                ctx.judged("write:" + fname, nontriv)
+                ctx.violation("%s%s/write-raised:%s@%s" % (fname, tag, et, site), "writing the selected records raised %s: %s" % (et, str(e)[:120]), wit)
+                return
+            concatenated = any(step[0].startswith("concat") for step in program)
 
-        def lenient(text):
-            """after a concatenation or replacement only the fields of the entry type must keep their text: line ends and the
-            FASTQ '+name' line are not fields"""
-            text = text.replace("\r\n", "\n")
-            if fname == "fastq":
-                lines = text.split("\n")
-                lines = [("+" if (j % 4 == 2 and l.startswith("+")) else l) for j, l in enumerate(lines)]
-                text = "\n".join(lines)
-            return text
-        if not state:
-            # nothing selected: only a header may be written
-            ok = got in ("", header, header.replace("\r\n", "\n"))
-        elif concatenated or replaced_any:
-            ok = lenient(got) == lenient(expected)
-            if ok and got != expected:
-                ctx.observe("line-ends-or-plus-line-normalised-after-concatenate/replace:%s" % fname)
-        else:
-            ok = got == expected
-        if fname == "gtf" and not ok and (case["noncanon"] or eol != "\n"):
-            # GTF is never lazy: records are re-rendered.  If only spelling / line ends differ this is the listed known finding;
-            # different VALUES are a different violation.
-            def canon_gtf(text):
-                out = []
-                for line in text.replace("\r\n", "\n").split("\n"):
-                    c = line.split("\t")
-                    if len(c) >= 5:
-                        try:
-                            c[3], c[4] = str(int(c[3])), str(int(c[4]))
-                        except ValueError:
-                            pass
-                    out.append("\t".join(c))
-                return "\n".join(out)
-            same_values = canon_gtf(got) == canon_gtf(expected)
-            ctx.check("write:gtf", False, "gtf/not-read-lazily:%s" % ("source-spelling-or-line-ends-not-preserved" if same_values else "values-differ"),
-                      "GTF records re-rendered: got %r expected %r" % (got[-200:], expected[-200:]), dict(wit, got=got[-900:], expected=expected[-900:]), nontriv)
-            return
-        ctx.check("write:" + fname, ok, "%s%s/bytes-differ-from-selected-source-records%s" % (fname, tag, classify(got, expected, header, eol, state)),
-                  "written bytes differ from the selected source records: got %r expected %r" % (got[-220:], expected[-220:]), dict(wit, got=got[-900:], expected=expected[-900:]), nontriv)
+            def lenient(text):
+                """after a concatenation or replacement only the fields of the entry type must keep their text: line ends and the
+                FASTQ '+name' line are not fields"""
+                text = text.replace("\r\n", "\n")
+                if fname == "fastq":
+                    lines = text.split("\n")
+                    lines = [("+" if (j % 4 == 2 and l.startswith("+")) else l) for j, l in enumerate(lines)]
+                    text = "\n".join(lines)
+                return text
+            if not state:
+                # nothing selected: only a header may be written
+                ok = got in ("", header, header.replace("\r\n", "\n"))
+            elif concatenated or replaced_any:
+                ok = lenient(got) == lenient(expected)
+                if ok and got != expected:
+                    ctx.observe("line-ends-or-plus-line-normalised-after-concatenate/replace:%s" % fname)
+            else:
+                ok = got == expected
+            if fname == "gtf" and not ok and (case["noncanon"] or eol != "\n"):
+                # GTF is never lazy: records are re-rendered.  If only spelling / line ends differ this is the listed known finding;
+                # different VALUES are a different violation.
+                def canon_gtf(text):
+                    out = []
+                    for line in text.replace("\r\n", "\n").split("\n"):
+                        c = line.split("\t")
+                        if len(c) >= 5:
+                            try:
+                                c[3], c[4] = str(int(c[3])), str(int(c[4]))
+                            except ValueError:
+                                pass
+                        out.append("\t".join(c))
+                    return "\n".join(out)
+                same_values = canon_gtf(got) == canon_gtf(expected)
+                ctx.check("write:gtf", False, "gtf/not-read-lazily:%s" % ("source-spelling-or-line-ends-not-preserved" if same_values else "values-differ"),
+                          "GTF records re-rendered: got %r expected %r" % (got[-200:], expected[-200:]), dict(wit, got=got[-900:], expected=expected[-900:]), nontriv)
+                return
+            ctx.check("write:" + fname, ok, "%s%s/bytes-differ-from-selected-source-records%s" % (fname, tag, classify(got, expected, header, eol, state)),
+                      "written bytes differ from the selected source records: got %r expected %r" % (got[-220:], expected[-220:]), dict(wit, got=got[-900:], expected=expected[-900:]), nontriv)
+
+
+        judge_write(t, state, replaced_any, program, "final")
+        # tables created on the way (parents of later selections / originals of later replacements) must still write THEIR records
+        for (pt, pstate, prepl, pprog) in r.sample(earlier, min(2, len(earlier))):
+            if pprog != program:
+                judge_write(pt, pstate, prepl, pprog + ["(written after: %r)" % (program[len(pprog):],)], "earlier-table")
 
     def classify(got, expected, header, eol, state):
         if got == expected:
